@@ -155,7 +155,9 @@ impl NameCompressor {
 
         // If there is a non-empty uncompressed prefix, register it as a new
         // entry here.
-        if !name.is_empty() && contents.len() < 16384 {
+        // The compression pointer also counts the 12-byte message header, so
+        // every offset inside the entry has to stay below 16384 - 12.
+        if !name.is_empty() && contents.len() + name.len() + 12 <= 16384 {
             // SAFETY: 'name' is a non-empty sequence of labels.
             let first = unsafe {
                 LabelIter::new_unchecked(name).next().unwrap_unchecked()
@@ -312,7 +314,9 @@ impl NameCompressor {
 
         // If there is a non-empty uncompressed prefix, register it as a new
         // entry here. We already know what the hash of its last label is.
-        if !name.is_empty() && contents.len() < 16384 {
+        // The compression pointer also counts the 12-byte message header, so
+        // every offset inside the entry has to stay below 16384 - 12.
+        if !name.is_empty() && contents.len() + name.len() + 12 <= 16384 {
             // Pick the entry that was least recently used (or uninitialized).
             //
             // By the invariants of 'last_use', it is guaranteed that this
